@@ -311,6 +311,23 @@ def write_replay(prop, name, payload):
     return path
 
 
+# (operation/operand-state) cells the unit tests never form and that a run is expected to reach (DESIGN section 3); reported in the evidence
+MUST_HIT = {
+    "C01": ["operator=(&&)/inl-partial|inl-full", "operator=(&&)/inl-full|inl-partial", "operator=(&&)/heap-le-N|inl-partial", "operator=(&&)/inl-partial|heap-gt-N",
+            "swap(member)/inl-partial|inl-full", "swap(member)/inl-full|heap-gt-N", "swap(member)/heap-gt-N|heap-le-N", "operator=(const&)/inl-full|inl-partial",
+            "erase(first,last)/inl-full", "erase(first,last)/heap-le-N", "ctor(vector&&)/heap-partial", "ctor(vector&&)/null", "shrink_to_fit/heap-le-N",
+            "insert(pos,range)/inl-partial", "assign(range)/heap-empty", "swap2(same)/heap-gt-N|heap-le-N", "alias:insert(pos,v[i])/inl-partial", "push_back(const&)/inl-full"],
+    "C05": ["operator=(&&)/inl-partial|inl-full", "operator=(&&)/inl-full|inl-partial", "swap(member)/inl-partial|inl-full", "shrink_to_fit/heap-le-N", "ctor(move)/inl-full",
+            "push_back(const&)/inl-partial", "clear/inl-full", "operator=(const&)/inl-empty|inl-full"],
+    "C07": ["operator=(&&)/heap-gt-N|heap-gt-N", "swap(member)/heap-gt-N|heap-gt-N", "ctor(move)/heap-gt-N", "reserve/heap-le-N", "erase(pos)/heap-gt-N", "insert(pos,n,v)/heap-gt-N",
+            "shrink_to_fit/heap-gt-N", "clear/heap-gt-N"],
+    "C13": ["A.swap2(B)/inl-full|heap-full", "A.swap2(B)/heap-gt-N|heap-partial", "B.swap2(A)/heap-gt-N-full|heap-le-N", "A.swap2(B)/full|partial", "A.swap2(B)/inl-partial|inl-full"],
+    "C04": ["erase(pos)/large-le-N", "erase(key)/large-le-N", "merge(other-type)/inline-partial|inline-partial", "merge(same-type)/inline-full|large", "compare/inline-full|large-le-N",
+            "insert(const&)/inline-full", "erase-while-iterating/large", "erase-while-iterating/large-le-N", "extract+insert(node)/inline-full", "operator=(&&)/large"],
+    "C11": ["erase(pos)/large-le-N", "erase(first,last)/large-le-N", "erase-while-iterating/large-le-N", "erase-while-iterating/inline-full", "insert(hint,v)/large", "extract(pos)/large-le-N"],
+}
+
+
 def finish(prop, tier, level, coverage, violations, inconclusive, t0, assumptions, min_evals=1):
     """violations: list of dict(key, detail, replay payload...). Prints VIOLATION / KNOWN-FINDING lines, writes evidence,
     returns the exit code."""
@@ -334,6 +351,14 @@ def finish(prop, tier, level, coverage, violations, inconclusive, t0, assumption
         print("  detail: %s" % str(v.get("detail", ""))[:400])
         rc = 1
     cov = dict(coverage)
+    opstates = cov.pop("_opstates", None)
+    must = MUST_HIT.get(prop)
+    if must is not None and opstates is not None:
+        missing = sorted(m for m in must if m not in opstates)
+        cov["must_hit_cells"] = len(must)
+        cov["must_hit_cells_not_observed"] = missing
+        if len(missing) * 2 > len(must):
+            inconclusive = list(inconclusive) + [{"why": "more than half of the must-hit (operation, operand states) cells were not observed", "missing": missing[:10]}]
     cov.setdefault("evaluations", 0)
     cov.setdefault("distinct_nontrivial", 0)
     ev = {
